@@ -106,6 +106,10 @@ package keeper
 //@ func (k Keeper) ProducePacket
 //@ modifies Store_tunnel, Bank, Other
 //@ requires wfTunnel(Store_tunnel, tunnelID) && wfLP(Store_tunnel, tunnelID)
+// the store invariant (every tunnel and latest-prices record is filed under its own id, fee payers are addresses) is kept
+//@ requires forall t Int :: wfTunnel(Store_tunnel, t) && wfLP(Store_tunnel, t)
+//@ ensures err == nil ==> (forall t Int :: wfTunnel(Store_tunnel, t))
+//@ ensures err == nil ==> (forall t Int :: wfLP(Store_tunnel, t))
 //@ ensures (let t = old(tunnelAt(Store_tunnel, tunnelID)) in let lp = old(lpAt(Store_tunnel, tunnelID)) in let now = ctx.BlockTime().Unix() in
 //@     let sendAll = (now >= wrap64(wrap64(t.Interval) + lp.LastInterval)) in
 //@     let np = GenerateNewPrices(t.SignalDeviations, CreatePricesMap(lp.Prices), feedsPricesMap, now, sendAll) in
@@ -134,6 +138,20 @@ package keeper
 //@ modifies Store_tunnel, Bank, Other
 //@ requires wfTunnel(Store_tunnel, tunnelID) && wfLP(Store_tunnel, tunnelID)
 //@ ensures err != nil ==> Bank == old(Bank) && Other == old(Other) && Store_tunnel == old(Store_tunnel)
+//@ requires forall t Int :: wfTunnel(Store_tunnel, t) && wfLP(Store_tunnel, t)
+//@ ensures err == nil ==> (forall t Int :: wfTunnel(Store_tunnel, t))
+//@ ensures err == nil ==> (forall t Int :: wfLP(Store_tunnel, t))
+
+// C02: the tunnel end-blocker visits every active tunnel id; a tunnel whose packet cannot be produced only gets an event
+// (the attempt leaves no trace, see above), so the end-blocker itself never fails.
+//@ func (k Keeper) GetActiveTunnelIDs
+//@ loop 0: invariant 0 <= itpos(iterator) && itpos(iterator) <= itlen(iterator)
+//@ func (k Keeper) ProduceActiveTunnelPackets
+//@ modifies Store_tunnel, Bank, Other
+//@ requires forall t Int :: wfTunnel(Store_tunnel, t) && wfLP(Store_tunnel, t)
+//@ ensures err == nil
+//@ ensures forall t Int :: wfTunnel(Store_tunnel, t) && wfLP(Store_tunnel, t)
+//@ loop 0: invariant forall t Int :: wfTunnel(Store_tunnel, t) && wfLP(Store_tunnel, t)
 
 // ---- C17: deposits -----------------------------------------------------------------------------------
 //@ spec depHas(s Store, t Int, a Addr) Bool = has(s, types.DepositStoreKey(t, a))
